@@ -100,7 +100,7 @@ fn gen_spec(ch: &mut Ch) -> IsoSpec {
     for (ci, (ep, method, path)) in keys.iter().enumerate() {
         let nblocks = if big { 20 + ch.below(45, "iso.nblocks.big") as usize } else { 2 + ch.below(4 + extra_blocks, "iso.nblocks") as usize };
         let len = nblocks * size - ch.below(size as u64, "iso.tail") as usize;
-        let r = resources.entry(path.clone()).or_insert_with(|| ResSpec { lens: vec![len], opts: vec![], up_reply_lens: vec![0], own_block2: None, code: None });
+        let r = resources.entry(path.clone()).or_insert_with(|| ResSpec { lens: vec![len], opts: vec![], up_reply_lens: vec![4], own_block2: None, code: None });
         let upload = !(*method == 1 || *method == 5);
         let kind = if upload {
             if ch.chance(1, 3, "iso.updown") {
